@@ -258,7 +258,9 @@ def run_case(case, ctx):
                     del lay[tag]
             inst = instantiateVariableFont(lay, uloc)
             sp = specs[i]
-            kf1 = not varfea and not sp["kerning"] and any(x["kerning"] for x in specs) and not case.get("no_exclusions")
+            # (when the kerning-less master is the default source of this variable font, the font has no kerning at all: every master of it is affected)
+            in_vf = [j for j in range(nfull) if all(fvar[ax["tag"]][0] <= to_user(ax, fam["masters"][j]["loc"][ax["name"]]) <= fvar[ax["tag"]][1] for ax in fam["axes"])]
+            kf1 = not varfea and any(not specs[j]["kerning"] for j in in_vf) and any(x["kerning"] for x in specs) and not case.get("no_exclusions")
             if kf1:
                 # KF-C10-1: per-master layout, this master has no kerning at all -> no kern lookups (or no GPOS) in its binary, which the merger reads as "no data", not as zeros
                 ctx.label("known-finding-class(KF-C10-1)")
